@@ -3,6 +3,7 @@
      ProcessBlock (transaction part)            internal/spynode/blocks.go
      one iteration of checkTxDelays             internal/spynode/node.go
      TxRepository unconfirmed set               internal/storage/transactions.go, unconfirmed.go
+   reorganisation by the headers handler      internal/handlers/headers.go (revert of chain, per-height files, in-sync)
      tx state store                             internal/storage/tx.go
      trusted / untrusted / local entry points   internal/handlers/transaction.go, untrusted_transaction.go
    Executable definitions only.  Relevance (the subscription filter, C08) is a boolean carried by
@@ -250,6 +251,50 @@ Definition process_block (n : node) (b prev : Z) (txs : list btx) (valid : bool)
       end
   end.
 
+(* ---- a competing header (handlers/headers.go), then its block ---- *)
+
+(* the chain up to and including block x (the first occurrence) *)
+Fixpoint upto (x : Z) (l : list Z) : list Z :=
+  match l with
+  | [] => []
+  | y :: l' => if y =? x then [y] else y :: upto x l'
+  end.
+
+(* Revert to the held block prev: the headers above it are dropped from the block repository, the per-height
+   tx id files above it are removed, in-sync is cleared.  The stored tx states (flags, merkle proof,
+   depth), the mempool and the unconfirmed set are NOT touched. *)
+Definition revert (n : node) (prev : Z) : node :=
+  let c := upto prev (chain n) in
+  let top := zlen c - 1 in
+  Node (mp n) (unconf n) (states n) (filter (fun kv => fst kv <=? top = true) (blocktxs n)) c false (now n) (delay n).
+
+(* the observation of a reorg step: code, in sync, chain height, tip, notifications *)
+Definition reorg_obs (n : node) (ob : obs) : obs :=
+  match ob with
+  | c :: rest => c :: b2z (insync n) :: (zlen (chain n) - 1) :: default (-99) (last (chain n)) :: rest
+  | [] => []
+  end.
+
+(* the header of block b (parent prev) is announced by the trusted peer, then the block is supplied and
+   processed (what processBlocks does with a requested block).  In the order of the headers handler:
+   b is the tip: "headers in sync" when the node is not in sync, otherwise ignored;
+   prev is the tip: the ordinary next block;  b is held: ignored;
+   prev is held below the tip: the chain is reverted to prev, then the block is processed on it (a block
+   that is then refused leaves the chain reverted);  prev unknown: in-sync is cleared. *)
+Definition process_reorg (n : node) (b prev : Z) (txs : list btx) (valid : bool) : node * obs :=
+  let tip := default (-99) (last (chain n)) in
+  if b =? tip then
+    let n1 := Node (mp n) (unconf n) (states n) (blocktxs n) (chain n) true (now n) (delay n) in
+    (n1, reorg_obs n1 [ERR])
+  else if prev =? tip then
+    let '(n1, ob) := process_block n b prev txs valid in (n1, reorg_obs n1 ob)
+  else if in_chain n b then (n, reorg_obs n [ERR])
+  else if in_chain n prev then
+    let '(n1, ob) := process_block (revert n prev) b prev txs valid in (n1, reorg_obs n1 ob)
+  else
+    let n1 := Node (mp n) (unconf n) (states n) (blocktxs n) (chain n) false (now n) (delay n) in
+    (n1, reorg_obs n1 [ERR]).
+
 (* one iteration of checkTxDelays *)
 Fixpoint delay_loop (n : node) (cutoff : Z) (keys : list Z) (acc : list event) : node * list event :=
   match keys with
@@ -287,12 +332,14 @@ Inductive op :=
 | OTx (t : Z) (body : list Z) (rel : bool) (s : src)     (* a transaction body arrives *)
 | OInv (t : Z) (trusted : bool)                          (* inventory announcement (AddRequest) *)
 | OBlock (b prev : Z) (txs : list btx) (valid : bool)    (* ProcessBlock *)
+| OReorg (b prev : Z) (txs : list btx) (valid : bool)    (* header through the headers handler (reorg), then ProcessBlock *)
 | ODelayCheck
 | OAdvance (dt : Z)
 | OSetInSync (b : bool)
 | ORestart
 | OGetTx (t : Z)
-| OUnconf.                                               (* verif accessor: the unconfirmed set *)
+| OUnconf                                                (* verif accessor: the unconfirmed set *)
+| OBlockTxs (h : Z).                                     (* verif accessor: the per-height tx id file *)
 
 Definition enc_utx (kv : Z * utx) : list Z :=
   [fst kv; b2z (u_unsafe (snd kv)); b2z (u_safe (snd kv)); b2z (u_trusted (snd kv))].
@@ -318,12 +365,14 @@ Definition step (n : node) (o : op) : node * obs :=
         (set_mp n m1, [OK; b2z req; b2z (negb have && negb req)])
       else (n, [OK; 0; 0])
   | OBlock b prev txs valid => process_block n b prev txs valid
+  | OReorg b prev txs valid => process_reorg n b prev txs valid
   | ODelayCheck => let '(n1, evs) := delay_check n in (n1, OK :: enc_events evs)
   | OAdvance dt => (Node (mp n) (unconf n) (states n) (blocktxs n) (chain n) (insync n) (now n + dt) (delay n), [OK])
   | OSetInSync b => (Node (mp n) (unconf n) (states n) (blocktxs n) (chain n) b (now n) (delay n), [OK])
   | ORestart => (restart n, [OK])
   | OGetTx t => (n, match states n !! t with Some _ => [OK; t] | None => [ERR] end)
   | OUnconf => (n, OK :: concat (map enc_utx (sort_kv (map_to_list (unconf n)))))
+  | OBlockTxs h => (n, OK :: default [] (blocktxs n !! h))
   end.
 
 Fixpoint run_from (n : node) (ops : list op) : list obs :=
